@@ -267,7 +267,7 @@ pub fn check_json(c: &JsonCase, ctx: &mut Ctx) -> CheckResult {
     // known finding (same root cause as C05:solved-at-diverged-iterate): one copy is reported Solved at an iterate
     // whose homogenisation scalar has collapsed (x = x_int/tau diverges) while the other copy gets the
     // infeasibility verdict
-    let diverged = |o: &SolveOut| o.status == SolverStatus::Solved && (o.trace.last().map(|r| r.tau).unwrap_or(1.0) < 1e-8 || norm_inf(&o.x).max(norm_inf(&o.z)) > 1e12 * (1.0 + norm_inf(&ps.q) + norm_inf(&ps.b.iter().map(|v| v.min(bound)).collect::<Vec<f64>>())));
+    let diverged = |o: &SolveOut| o.status == SolverStatus::Solved && (o.trace.last().map(|r| r.tau).unwrap_or(1.0) < 1e-4 || norm_inf(&o.x).max(norm_inf(&o.z)) > 1e6 * (1.0 + norm_inf(&ps.q) + norm_inf(&ps.b.iter().map(|v| v.min(bound)).collect::<Vec<f64>>())));
     if planted && a != b && a != Verdict::None && b != Verdict::None && (diverged(&o1) || diverged(&o2)) && known_finding_hit("C19:verdict-flip-solved-at-diverged-iterate") {
         ctx.label("known-finding:verdict-flip-solved-at-diverged-iterate");
         return Ok(());
